@@ -8,6 +8,7 @@ Oracle: the work stays within the budget; the offender gets a well-formed respon
 step, or is closed; the witness' PING is answered; a new connection is fully served; the offender's registration is
 released when it ends."""
 import asyncio
+from mysql_mimic.types import Capabilities as ServerCaps  # the server's own flag type, for calling its parsers directly
 import io
 import os
 import random
@@ -170,7 +171,7 @@ def parser_level(chk, rng, meter, quick):
     for name, p in mutations(rng, qbase, quick):
         meter.start(80 * len(p) + 4000)
         try:
-            r = packets.parse_com_query(C(int(qa_caps)), CharacterSet.utf8mb4, p)
+            r = packets.parse_com_query(ServerCaps(int(qa_caps)), CharacterSet.utf8mb4, p)
             types = {a[3].decode(): a[0] for a in attrs}
             got = "sql=%s attrs=%s" % (hexs(r.sql.encode("utf8")), canon_attrs(r.query_attrs, {}))
         except Budget:
